@@ -141,6 +141,7 @@ func c19run(env *core.Env, idx int) core.CaseResult {
 	res.Count("bad_args", st.BadArgs)
 	res.Count("self_sets", st.SelfSets)
 	res.Count("content_checks", st.ContentChecks)
+	res.Count("resizes_followed_exactly", st.ExactResizes)
 	res.Count("bytes_copy_checks", st.AliasChecks)
 	if idx%7 == 0 && len(ps) > 0 {
 		res.Sample = map[string]any{"kind": kind, "program": ps[len(ps)/2].String()}
